@@ -44,4 +44,201 @@ def make_stubs(world):
         eng.set(st, o, 'args', eng.new_list(st, names))
         return ok(st, o)
 
+
+    # ------------------------------------------------------------------ % formatting
+    from specs.strings import fmt, fmt_ok, wfp, is_literal, litval, lit_exc
+
+    def _w_mod():
+        try:
+            '%(k)s' % {}
+        except KeyError:
+            pass
+        else:
+            return False
+        return ('%(k)s-%(k)s' % {'k': 1}) == '1-1' and ('a%sb' % 'x') == 'axb' and ('%s' % (1,)) == '1'
+
+    def _parse_format(f):
+        """constant format string -> list of literal str | ('pos',) | ('key', name); None if unsupported"""
+        out, i, n = [], 0, len(f)
+        lit = ''
+        while i < n:
+            ch = f[i]
+            if ch != '%':
+                lit += ch
+                i += 1
+                continue
+            if i + 1 < n and f[i + 1] == '%':
+                lit += '%'
+                i += 2
+                continue
+            if lit:
+                out.append(lit)
+                lit = ''
+            if i + 1 < n and f[i + 1] == 's':
+                out.append(('pos',))
+                i += 2
+                continue
+            if i + 1 < n and f[i + 1] == '(':
+                j = f.find(')', i)
+                if j < 0 or j + 1 >= n or f[j + 1] != 's':
+                    return None
+                out.append(('key', f[i + 2:j]))
+                i = j + 2
+                continue
+            return None
+        if lit:
+            out.append(lit)
+        return out
+
+    def _concat(parts):
+        parts = [z3.StringVal(p) if isinstance(p, str) else p for p in parts]
+        if not parts:
+            return z3.StringVal('')
+        return parts[0] if len(parts) == 1 else z3.Concat(*parts)
+
+    @S.fn('str.__mod__', doc="s % arg: a constant format string with %s / %(key)s / %% conversions is expanded "
+          "exactly (str() of each argument); a symbolic format string applied to a mapping returns fmt(s, m) when "
+          "every referenced key is present and raises KeyError otherwise (well-formed placeholders assumed via wfp)",
+          witness=_w_mod)
+    def str_mod(eng, st, pos, kw):
+        f, arg = pos
+        fs = z3.simplify(V.s(f))
+        if z3.is_string_value(fs):
+            spec = _parse_format(fs.as_string())
+            if spec is None:
+                raise Unsupported('format string %r' % fs.as_string())
+            npos = sum(1 for p in spec if p == ('pos',))
+            keys = [p[1] for p in spec if isinstance(p, tuple) and p[0] == 'key']
+            if keys and npos:
+                raise Unsupported('mixed format string')
+            res = [(st, 'ok', [])]
+            if keys:
+                def lookup(s, k):
+                    return eng.subscript(s, arg, mk_str(k))
+                for p in spec:
+                    nxt = []
+                    for s, kk, acc in res:
+                        if kk != 'ok':
+                            nxt.append((s, kk, acc))
+                            continue
+                        if isinstance(p, str):
+                            nxt.append((s, 'ok', acc + [p]))
+                            continue
+                        for s2, k2, v in lookup(s, p[1]):
+                            if k2 != 'ok':
+                                nxt.append((s2, k2, v))
+                                continue
+                            for s3, k3, sv in eng.str_of(s2, v):
+                                nxt.append((s3, 'ok', acc + [V.s(sv)]) if k3 == 'ok' else (s3, k3, sv))
+                    res = nxt
+            else:
+                if isinstance(arg, Static):
+                    raise Unsupported('% static')
+                if npos == 1:
+                    # a single non-tuple argument, or a 1-tuple
+                    vals_alts = [(st, [z3.If(V.is_tuple(arg), V.titems(arg)[0], arg)])]
+                    st.assume(z3.Implies(V.is_tuple(arg), z3.Length(V.titems(arg)) == 1))
+                else:
+                    st.assume(V.is_tuple(arg), z3.Length(V.titems(arg)) == npos)
+                    vals_alts = [(st, [eng.nth(V.titems(arg), z3.IntVal(i)) for i in range(npos)])]
+                (s0, vals), = vals_alts
+                res = [(s0, 'ok', [])]
+                vi = 0
+                for p in spec:
+                    if isinstance(p, str):
+                        res = [(s, kk, acc + [p]) if kk == 'ok' else (s, kk, acc) for s, kk, acc in res]
+                        continue
+                    v = vals[vi]
+                    vi += 1
+                    nxt = []
+                    for s, kk, acc in res:
+                        if kk != 'ok':
+                            nxt.append((s, kk, acc))
+                            continue
+                        for s3, k3, sv in eng.str_of(s, v):
+                            nxt.append((s3, 'ok', acc + [V.s(sv)]) if k3 == 'ok' else (s3, k3, sv))
+                    res = nxt
+            return [(s, 'ok', V.str(_concat(acc))) if k == 'ok' else (s, k, acc) for s, k, acc in res]
+        # symbolic format string
+        if isinstance(arg, Static):
+            raise Unsupported('% static')
+        out = []
+        a, b = eng.split(st, z3.Or(eng.is_dictlike(st, arg), z3.And(V.is_obj(arg), S.mapping_like(eng, arg))))
+        if b is not None:
+            raise Unsupported('symbolic format string applied to a non-mapping')
+        m = eng.map_of(a, arg)
+        w, nw = eng.split(a, wfp(V.s(f)))
+        if w is not None:
+            g, bad = eng.split(w, fmt_ok(V.s(f), m))
+            if g is not None:
+                out.append((g, 'ok', V.str(fmt(V.s(f), m))))
+            if bad is not None:
+                out.append((bad, 'exc', ExcVal('KeyError')))
+        if nw is not None:
+            for cn in ('ValueError', 'TypeError', 'KeyError'):
+                out.append((nw.fork(), 'exc', ExcVal(cn)))
+            out.append((nw, 'ok', V.str(fmt(V.s(f), m))))
+        return out
+
+    @S.fn('str.format', doc="'{}:{}'.format(a, b) with a constant format string of plain {} fields")
+    def str_format(eng, st, pos, kw):
+        f = z3.simplify(V.s(pos[0]))
+        if not z3.is_string_value(f) or kw:
+            raise Unsupported('symbolic str.format')
+        parts = f.as_string().split('{}')
+        if '{' in ''.join(parts) or len(parts) != len(pos):
+            raise Unsupported('format fields')
+        res = [(st, 'ok', [parts[0]])]
+        for i, v in enumerate(pos[1:]):
+            nxt = []
+            for s, k, acc in res:
+                if k != 'ok':
+                    nxt.append((s, k, acc))
+                    continue
+                for s3, k3, sv in eng.str_of(s, v):
+                    nxt.append((s3, 'ok', acc + [V.s(sv), parts[i + 1]]) if k3 == 'ok' else (s3, k3, sv))
+            res = nxt
+        return [(s, 'ok', V.str(_concat([p for p in acc if not (isinstance(p, str) and p == '')]))) if k == 'ok'
+                else (s, k, acc) for s, k, acc in res]
+
+    # ------------------------------------------------------------------ ast.literal_eval
+    LIT_EXC = ('ValueError', 'SyntaxError', 'MemoryError', 'RecursionError')
+
+    def _w_literal():
+        import ast
+        outs = set()
+        for text in ('class', 'a.b', '1+', "'x'", '1', 'None'):
+            try:
+                ast.literal_eval(text)
+                outs.add('ok')
+            except Exception as e:
+                outs.add(type(e).__name__)
+        return {'ok', 'ValueError', 'SyntaxError'} <= outs
+
+    @S.fn('ast.literal_eval', doc='returns litval(s) when is_literal(s); otherwise raises ValueError, SyntaxError, '
+          'MemoryError or RecursionError (the documented set for string input; TypeError only for non-strings)',
+          witness=_w_literal)
+    def literal_eval(eng, st, pos, kw):
+        a = pos[0]
+        out = []
+        s1, s2 = eng.split(st, V.is_str(a))
+        if s2 is not None:
+            out.append((s2, 'exc', ExcVal('TypeError')))
+        if s1 is not None:
+            g, b = eng.split(s1, is_literal(V.s(a)))
+            if g is not None:
+                v = litval(V.s(a))
+                from specs.strings import jsonlike
+                g.assume(jsonlike(v), z3.Not(V.is_obj(v)), v != ABSENT)
+                out.append((g, 'ok', v))
+            if b is not None:
+                b.assume(z3.Or([lit_exc(V.s(a)) == eng.cid(c) for c in LIT_EXC]))
+                for c in LIT_EXC:
+                    x, b = eng.split(b, lit_exc(V.s(a)) == eng.cid(c))
+                    if x is not None:
+                        out.append((x, 'exc', ExcVal(c)))
+                    if b is None:
+                        break
+        return out
+
     return S
